@@ -101,25 +101,57 @@ Exec(seg, t) ==
             Sub("helper", <<>>, "", <<Log("h")>>),
             SubOf("recv", seg.body \o TermBody(t))>>
            \o [i \in 1..Len(Others) |-> SubOf(Others[i], <<>>)],
-   exec |-> TRUE,
+   exec |-> TRUE, nd |-> 5,
    \* Sem: the log lines of the request (a restart runs the segment twice)
    logs |-> LET once == <<"@recv">> \o seg.logs
                 rest == [i \in 1..(Len(PathOf(t)) - (IF t = "restart" THEN 2 ELSE 1)) |-> "@" \o PathOf(t)[i + (IF t = "restart" THEN 2 ELSE 1)]]
             IN IF t = "restart" THEN once \o once \o rest ELSE once \o rest,
    path |-> PathOf(t)]
 
+\* programs whose interesting statements sit in later subroutines (error / fetch / deliver scope variables,
+\* synthetic, return forms of those scopes); extras = <<name, body>> pairs, listed right after vcl_recv
+Late(name, recvBody, extras, logs, path) ==
+  LET names == {extras[i][1] : i \in DOMAIN extras}
+      rest == SelectSeq(Others, LAMBDA o : o \notin names)
+  IN [name |-> name,
+      ds |-> <<Backend("example", <<Prop("bprop", "host", Str("__HOST__", "\"__HOST__\"")), Prop("bprop", "port", Str("__PORT__", "\"__PORT__\"")),
+                                     Prop("bprop", "ssl", Bool(FALSE))>>),
+               Acl("internal", <<Cidr(FALSE, "10.0.0.0", "8")>>),
+               Table("t1", "STRING", <<TProp(sA, sB, TRUE)>>),
+               Sub("helper", <<>>, "", <<Log("h")>>),
+               SubOf("recv", recvBody)>>
+              \o [i \in DOMAIN extras |-> SubOf(extras[i][1], extras[i][2])]
+              \o [i \in DOMAIN rest |-> SubOf(rest[i], <<>>)],
+      exec |-> TRUE, nd |-> 5 + Len(extras), logs |-> logs, path |-> path]
+idE == Id("obj.http.X-E")   idZ == Id("resp.http.Z")   idF == Id("beresp.http.F")
+LateProgs == {
+  Late("late/error", <<ErrorS(Int("701", "701"), Str("R", "\"R\""))>>,
+       << <<"error", <<SetS(Id("obj.status"), "=", Int("702", "702")), SetS(idE, "=", Cat(Str("e", "\"e\""), Id("obj.status"), FALSE)),
+                       ValS("synthetic", "synthetic", Str("S", "{\"S\"}")), LogE(idE), Return(Id("deliver"), "paren")>> >>,
+          <<"deliver", <<SetS(idZ, "=", Cat(Str("z", "\"z\""), Id("resp.http.X-E"), TRUE)), LogE(idZ), Return(Id("deliver"), "plain")>> >> >>,
+       <<"@recv", "@error", "e702", "@deliver", "ze702", "@log">>, <<"recv", "error", "deliver", "log">>),
+  Late("late/fetch", <<Return(Id("pass"), "paren")>>,
+       << <<"fetch", <<SetS(Id("beresp.ttl"), "=", r10), SetS(idF, "=", Str("f", "\"f\"")),
+                       If(Infix("==", Id("beresp.status"), Int("200", "200")), <<Log("ok")>>, <<>>, Else(<<Log("notok")>>)),
+                       Return(Id("deliver"), "paren")>> >>,
+          <<"deliver", <<LogE(Id("resp.http.F")), UnRm("unset", Id("resp.http.F")), If(Prefix("!", Id("resp.http.F")), <<Log("gone")>>, <<>>, NoneObj)>> >>,
+          <<"log", <<LogE(Cat(Str("s", "\"s\""), Id("resp.status"), FALSE))>> >> >>,
+       <<"@recv", "@hash", "@pass", "@fetch", "ok", "@deliver", "f", "gone", "@log", "s200">>, <<"recv", "hash", "pass", "fetch", "deliver", "log">>)
+}
+
 ExecProgs ==
   {Exec(s, "fall") : s \in Segments} \cup {Exec(CHOOSE s \in Segments : s.name = "log", t) : t \in Terminals}
   \cup {Exec(CHOOSE s \in Segments : s.name = "if-else", t) : t \in {"pass", "restart"}}
+  \cup LateProgs
 \* lint only: every statement and declaration kind of FmtDoc (most of them carry lint errors of their own:
 \* undefined variables and subroutines, type mismatches, missing macros - the "injected errors")
-UnitProgs == {[name |-> d.fam \o "/" \o d.focus, ds |-> d.ds, exec |-> FALSE, logs |-> <<>>, path |-> <<>>] : d \in UnitDocs}
+UnitProgs == {[name |-> d.fam \o "/" \o d.focus, ds |-> d.ds, exec |-> FALSE, nd |-> Len(d.ds), logs |-> <<>>, path |-> <<>>] : d \in UnitDocs}
 Progs == IF ProgSet = "exec" THEN ExecProgs ELSE UnitProgs
 
 Markers == {"#", "//", "/*"}
 ProgT(p) == CatT(p.ds)
 \* decorated are the declarations that differ between programs (the lifecycle stubs after vcl_recv are all alike)
-NDecorated(p) == IF p.exec THEN 5 ELSE Len(p.ds)
+NDecorated(p) == p.nd
 Decors(p) ==
   LET n == Cardinality(GapIdx(CatT(SubSeq(p.ds, 1, NDecorated(p)))))
       one(i) == {[at |-> i, m |-> m, sp |-> "plain"] : m \in Markers}
